@@ -642,6 +642,64 @@ def loops_for_comprehensions(tree):
     return count[0]
 
 
+def alias_attributes(trees_by_path):
+    """x__a = self.attr   at the top of a method, and x__a wherever the method read self.attr - for attributes that are plain configuration:
+    assigned in an `__init__` of the tree set and nowhere else (no method re-binds them, no property / method of that name anywhere), read
+    at least twice in the method, and the method is not `__init__`.  The alias names the same object for the whole call."""
+    stored_outside_init, stored_in_init, defs = set(), set(), set()
+    for tree in trees_by_path.values():
+        for cl in [x for x in ast.walk(tree) if isinstance(x, ast.ClassDef)]:
+            for m in cl.body:
+                if isinstance(m, (ast.FunctionDef, ast.AsyncFunctionDef)):
+                    defs.add(m.name)
+                    for x in ast.walk(m):
+                        if isinstance(x, ast.Attribute) and isinstance(x.ctx, (ast.Store, ast.Del)):
+                            (stored_in_init if m.name == "__init__" and isinstance(x.value, ast.Name) and x.value.id == "self" else stored_outside_init).add(x.attr)
+                elif isinstance(m, (ast.Assign, ast.AnnAssign)):
+                    for t in (m.targets if isinstance(m, ast.Assign) else [m.target]):
+                        if isinstance(t, ast.Name):
+                            defs.add(t.id)
+        for x in ast.walk(tree):
+            if isinstance(x, ast.Call) and isinstance(x.func, ast.Name) and x.func.id in ("setattr", "delattr"):
+                stored_outside_init.add("*")
+    config = stored_in_init - stored_outside_init - defs
+    counts = {}
+    for path, tree in trees_by_path.items():
+        count = 0
+        for cl in [x for x in ast.walk(tree) if isinstance(x, ast.ClassDef)]:
+            for m in cl.body:
+                if not isinstance(m, ast.FunctionDef) or m.name == "__init__" or not m.args.args or m.args.args[0].arg != "self" \
+                        or any(ast.unparse(d).split("(")[0] in ("staticmethod", "classmethod") for d in m.decorator_list):
+                    continue
+                if any(isinstance(x, (ast.FunctionDef, ast.AsyncFunctionDef, ast.Lambda, ast.ClassDef)) and x is not m for x in ast.walk(m)):
+                    continue
+                if any(isinstance(x, ast.Name) and x.id == "self" and isinstance(x.ctx, ast.Store) for x in ast.walk(m)):
+                    continue
+                reads = {}
+                for x in ast.walk(m):
+                    if isinstance(x, ast.Attribute) and isinstance(x.value, ast.Name) and x.value.id == "self" and isinstance(x.ctx, ast.Load) and x.attr in config:
+                        reads[x.attr] = reads.get(x.attr, 0) + 1
+                used = {x.id for x in ast.walk(m) if isinstance(x, ast.Name)} | {a.arg for a in ast.walk(m.args) if isinstance(a, ast.arg)}
+                chosen = sorted(a for a, k in reads.items() if k >= 2 and f"{a}__a" not in used)
+                if not chosen:
+                    continue
+
+                class R(ast.NodeTransformer):
+                    def visit_Attribute(self, n):
+                        self.generic_visit(n)
+                        if isinstance(n.value, ast.Name) and n.value.id == "self" and isinstance(n.ctx, ast.Load) and n.attr in chosen:
+                            return ast.copy_location(ast.Name(id=f"{n.attr}__a", ctx=ast.Load()), n)
+                        return n
+                m.body = [R().visit(st) for st in m.body]
+                head = [ast.Assign(targets=[ast.Name(id=f"{a}__a", ctx=ast.Store())], value=ast.Attribute(value=ast.Name(id="self", ctx=ast.Load()), attr=a, ctx=ast.Load()), lineno=m.lineno) for a in chosen]
+                k0 = 1 if m.body and isinstance(m.body[0], ast.Expr) and isinstance(m.body[0].value, ast.Constant) and isinstance(m.body[0].value.value, str) else 0
+                m.body[k0:k0] = head
+                count += len(chosen)
+        ast.fix_missing_locations(tree)
+        counts[path] = count
+    return counts
+
+
 def transformed_copy(mode, suffix="_q"):
     """a scratch copy of the analysed tree (VERIF_REPO_ROOT or /repo) with one transformation applied everywhere; (path, number of rewrites)"""
     src_root = os.environ.get("VERIF_REPO_ROOT", "/repo")
@@ -655,7 +713,7 @@ def transformed_copy(mode, suffix="_q"):
     sig = _signatures([ast.parse(open(p_).read()) for p_ in files if os.path.exists(p_)]) if mode == "keyword-arguments" else {}
     if mode.startswith("combined"):
         # several rewrites on top of one another (each still preserves behaviour): the checks must not depend on a spelling surviving the others
-        order = {"combined": ["loops-for-comprehensions", "rename-comprehension-variables", "swap-products", "name-arguments", "name-tests", "swap-arms", "else-after-exit", "flip-comparisons", "keyword-arguments", "generators-for-lists", "hoist-returns", "rename-locals"],
+        order = {"combined": ["alias-attributes", "loops-for-comprehensions", "rename-comprehension-variables", "swap-products", "name-arguments", "name-tests", "swap-arms", "else-after-exit", "flip-comparisons", "keyword-arguments", "generators-for-lists", "hoist-returns", "rename-locals"],
                  "combined-2": ["inline-temps", "unelse", "swap-arms", "flip-comparisons", "hoist-returns", "name-tests", "rename-locals"]}[mode]
         shutil.rmtree(scratch, ignore_errors=True)
         prev_root = os.environ.get("VERIF_REPO_ROOT")
@@ -674,6 +732,13 @@ def transformed_copy(mode, suffix="_q"):
             else:
                 os.environ["VERIF_REPO_ROOT"] = prev_root
         return cur_root, total
+    if mode == "alias-attributes":
+        trees = {p_: ast.parse(open(p_).read()) for p_ in files if os.path.exists(p_)}
+        for p_, k in alias_attributes(trees).items():
+            if k:
+                open(p_, "w").write(ast.unparse(trees[p_]) + "\n")
+                total += k
+        return scratch, total
     for path in files:
         if not os.path.exists(path):
             continue
@@ -702,7 +767,7 @@ def main():
     if "--only" in sys.argv:
         only = sys.argv[sys.argv.index("--only") + 1].split(",")
     mode = "rename-locals"
-    for m_ in ("hoist-returns", "name-arguments", "unelse", "else-after-exit", "flip-comparisons", "keyword-arguments", "inline-temps", "swap-arms", "generators-for-lists", "name-tests", "swap-products", "loops-for-comprehensions", "rename-comprehension-variables", "combined-2", "combined"):
+    for m_ in ("hoist-returns", "name-arguments", "unelse", "else-after-exit", "flip-comparisons", "keyword-arguments", "inline-temps", "swap-arms", "generators-for-lists", "name-tests", "swap-products", "loops-for-comprehensions", "rename-comprehension-variables", "alias-attributes", "combined-2", "combined"):
         if "--" + m_ in sys.argv:
             mode = m_
     out = tempfile.mkdtemp(prefix="batchie-verif-alpha-out-", dir="/var/tmp")
